@@ -149,7 +149,11 @@ def handler : Handler := fun op j =>
     let inc ← fBool? j "include_eval"
     -- the real-linear Jacobian  d ↦ P d + Q conj d  and JAX's transpose of it  c ↦ Pᵀ c + conj(Qᵀ c)
     let J : CV n → CV m := fun d => vadd (mulVec P d) (mulVec Q (conjVec d))
-    let G : CV m → CV n := fun c => vadd (mulVec (transpose P) c) (conjVec (mulVec (transpose Q) c))
+    let realIn := (fBool? j "real_input").getD false
+    -- for a real input array JAX returns a real cotangent: the real part
+    let G : CV m → CV n := fun c =>
+      let g := vadd (mulVec (transpose P) c) (conjVec (mulVec (transpose Q) c))
+      if realIn then realPart g else g
     let outJ (o : JacOut Float m m) : Json :=
       match o with
       | .plain r => jObj [("blocks", jArr [jCV r])]
@@ -158,8 +162,13 @@ def handler : Handler := fun op j =>
       match o with
       | .plain r => jObj [("blocks", jArr [jCV r])]
       | .withEval a r => jObj [("blocks", jArr [jCV a, jCV r])]
+    let inC := (fBool? j "in_complex").getD true
+    let outC := (fBool? j "out_complex").getD true
+    let jadj : Json := match jacobianAdjChecked inc inC outC Fu G w with
+      | some o => outA o
+      | none => jObj [("err", jS "dtype")]
     some (ok (jObj [("jvp", jCV (J v)), ("vjp", jCV (vjpWrap conjugate G w)), ("cvjp", jCV (cvjpWrap G w)),
-                    ("jeval", outJ (jacobianEval inc Fu J v)), ("jadj", outA (jacobianAdj inc Fu G w))]))
+                    ("jeval", outJ (jacobianEval inc Fu J v)), ("jadj", jadj)]))
   | "linadj" => do
     let n ← fNat? j "n"
     let m ← fNat? j "m"
